@@ -140,7 +140,8 @@ func init() {
 		init3 := func() {
 			if gCore == nil {
 				ps := c01Prods(false)
-				ps = append([]enum.Prod{leaf("(t! x)", form("t!", sym("x"))), leaf("(t! y)", form("t!", sym("y")))}, ps...)
+				ps = append([]enum.Prod{leaf("(t! x)", form("t!", sym("x"))), leaf("(t! y)", form("t!", sym("y"))),
+					leaf("{:k x}", mp(kw("k"), sym("x"))), leaf("[x (t! 1)]", model.Vec(sym("x"), form("t!", model.Int(1))))}, ps...)
 				gCore = enum.New([][]enum.Prod{ps}, coreW())
 				gTry = c03Grammar(tryW())
 				gMac = c12CodeGrammar(3)
